@@ -14,6 +14,14 @@ tie T1:  harness/C09_wf.cpp `nodeio`: seeded random operation sequences on REAL 
 tie T2:  harness/C09_wf.cpp `design`: generated designs through the real frontend; the extracted wf_check runs
          on the graph after every construction statement, at every pass boundary of the real Default/Minimal
          post processors (hook), after repeated optimizeSubnet and after shuffleNodes.
+poison:  the harness replaces operator new/delete: freed blocks are filled with 0xDD and quarantined, so a stale read
+         faults deterministically and a stale write is detected -- use-after-free is observable in the QUICK tier.
+         Every (design, post processor, slack) case runs in a forked child; slack j = before every pass the node
+         vector gets capacity == size + j (public Circuit::getNodes()), so the (j+1)-th createNode of EVERY pass
+         reallocates Circuit::m_nodes.  Extra shapes make passes create nodes (literal-vs-literal comparisons, bool
+         comparisons with constants, three-entity wiring, path attributes, unclosed loop variables).
+lint:    (labelled as such) static audit: a range-for / iterator loop over the circuit's node vector (or over a
+         group's node list) whose body creates nodes (or moves nodes between groups).
 search:  an independent python re-implementation of the invariant (no Coq; type agreement only for the kinds that
          copy the driver's type to their output) on the real dumps.
 partial: use-after-free / out-of-bounds are not expressible in Gallina.  Thorough tier: the same corpora run
@@ -173,6 +181,163 @@ def blocks_t2(path):
 
 
 # --------------------------------------------------------------------------------------------------
+# lint (static audit, heuristic): loops over a node vector that must index because their body grows the vector
+# --------------------------------------------------------------------------------------------------
+_L_RANGE = re.compile(r"for\s*\(\s*(?:const\s+)?(?:auto|[\w:<>\*]+)\s*(?:const\s*)?&{0,2}\s*\w+\s*:\s*([^;{}]*?(?:m_nodes|getNodes\s*\(\s*\)))\s*\)")
+_L_ITER = re.compile(r"for\s*\(\s*[^;{}]*=\s*([^;{}]*?(?:m_nodes|getNodes\s*\(\s*\)))\s*\.\s*c?begin\s*\(\s*\)\s*;[^;{}]*;[^;{}]*\)")
+_L_CREATE = re.compile(r"createNode\s*<|createUnconnectedClone\s*\(|copySubnet\s*\(|ConstructionHelper\s*\(|getCreate\w*\s*\(|"
+                       r"getNodes\s*\(\s*\)\s*\.\s*(?:push_back|emplace_back|pop_back|erase|insert|resize|clear)\s*\(")
+_L_OWN = re.compile(r"m_nodes\s*\.\s*(?:push_back|emplace_back|pop_back|erase|insert|resize|clear)\s*\(")
+_L_MOVE = re.compile(r"moveToGroup\s*\(")
+_L_FUNC = re.compile(r"^[ \t]*(?:[\w:<>,\*&~]+[ \t]+)*([\w:~]+::[\w~]+)\s*\([^;{}]*\)\s*(?:const\s*)?(?:override\s*)?\{", re.M)
+
+
+def _lint_strip(src):
+    src = re.sub(r"//[^\n]*", lambda m: " " * len(m.group(0)), src)
+    src = re.sub(r"/\*.*?\*/", lambda m: re.sub(r"[^\n]", " ", m.group(0)), src, flags=re.S)
+    return re.sub(r'"(?:\\.|[^"\\\n])*"', lambda m: '"' + " " * (len(m.group(0)) - 2) + '"', src)
+
+
+def _lint_body(src, i):
+    while i < len(src) and src[i].isspace():
+        i += 1
+    if i < len(src) and src[i] == "{":
+        d, j = 0, i
+        while j < len(src):
+            if src[j] == "{":
+                d += 1
+            elif src[j] == "}":
+                d -= 1
+                if d == 0:
+                    return src[i:j + 1]
+            j += 1
+        return src[i:]
+    j = src.find(";", i)
+    return src[i:j + 1]
+
+
+def lint_node_loops(root):
+    """-> list of dict(key, file, line, function, loop, trigger, trigger_line)"""
+    hits = []
+    files = sorted(glob.glob(os.path.join(root, "source/gatery/**/*.cpp"), recursive=True) +
+                   glob.glob(os.path.join(root, "source/gatery/**/*.h"), recursive=True))
+    for f in files:
+        try:
+            src = _lint_strip(open(f, errors="replace").read())
+        except OSError:
+            continue
+        rel = os.path.relpath(f, root)
+        for rx in (_L_RANGE, _L_ITER):
+            for m in rx.finditer(src):
+                cont = re.sub(r"\s+", "", m.group(1))
+                if re.search(r"ircuit[\w()]*(\.|->)getNodes\(\)$", cont) or (cont == "m_nodes" and rel.endswith("hlim/Circuit.cpp")):
+                    kind, trig = "circuit", [_L_CREATE] + ([_L_OWN] if cont == "m_nodes" else [])
+                elif cont.endswith("getNodes()") or (cont == "m_nodes" and rel.endswith("hlim/NodeGroup.cpp")):
+                    kind, trig = "group", [_L_MOVE] + ([_L_OWN] if cont == "m_nodes" else [])
+                else:
+                    continue
+                b = _lint_body(src, m.end())
+                t = None
+                for r in trig:
+                    t = r.search(b)
+                    if t:
+                        break
+                if not t:
+                    continue
+                line = src.count("\n", 0, m.start()) + 1
+                fn = None
+                for fm in _L_FUNC.finditer(src, 0, m.start()):
+                    fn = fm.group(1)
+                hits.append(dict(key=f"lint-range-for-creates-nodes {rel} {fn}", file=rel, line=line, function=fn, container=kind,
+                                 loop=re.sub(r"\s+", " ", m.group(0)), trigger=t.group(0).strip(),
+                                 trigger_line=line + src[m.start():m.end()].count("\n") + b[:t.start()].count("\n")))
+    return hits
+
+
+# --------------------------------------------------------------------------------------------------
+# shapes that make passes CREATE nodes while they iterate
+# --------------------------------------------------------------------------------------------------
+def gen_creating(seed, did):
+    """a designgen design with extra statements:
+       literal-vs-literal comparisons (ensureNoLiteralComparison inserts a named signal), bool comparisons with a
+       constant (removeIrrelevantComparisons creates a NOT), an unclosed loop variable (insertConstUndefinedNodes),
+       a signal produced in a sub-entity and consumed in a sibling sub-entity and in the grandparent
+       (IntelQuartus::prepareCircuit inserts a signal), path attributes (XilinxVivado::prepareCircuit inserts
+       attribute nodes)"""
+    import random
+    rng = random.Random(seed * 7 + 3)
+    lines, used = G.gen_design(seed, did)
+    head, body = lines[0], lines[1:]
+    tail = []
+    while body and body[-1].split()[0] in ("drop", "dropall"):
+        tail.insert(0, body.pop())
+    ins = [l.split()[1] for l in body if l.split()[0] == "in"]
+    inbs = [l.split()[1] for l in body if l.split()[0] == "inb"]
+    extra, outs, shapes = [], [], []
+    n = [0]
+
+    def nm(p):
+        n[0] += 1
+        return f"{p}{n[0]}_"
+    def xbits(w, allow_def=False):
+        return "".join(rng.choice("x01" if allow_def else "xx01") for _ in range(w))
+    for _ in range(rng.choice([1, 2, 2, 3, 4])):
+        w = rng.choice([1, 3, 4, 8])
+        a, b, c = nm("la"), nm("lb"), nm("lc")
+        va = xbits(w)
+        if "x" not in va:
+            va = "x" + va[1:]
+        extra += [f"lit {a} u {va}", f"lit {b} u {xbits(w, True)}", f"bin {c} {rng.choice(['eq', 'ne', 'lt', 'gt', 'le', 'ge'])} {a} {b}"]
+        outs.append(c)
+        shapes.append("litcmp")
+    if inbs:
+        for _ in range(rng.choice([0, 1, 2])):
+            k, c = nm("kb"), nm("bc")
+            extra += [f"lit {k} b {rng.choice('01')}", f"bin {c} {rng.choice(['eq', 'ne'])} {rng.choice(inbs)} {k}"]
+            outs.append(c)
+            shapes.append("boolcmp")
+    if rng.random() < 0.5:
+        x = nm("lv")
+        extra += [f"loopvar {x} {rng.choice([1, 4])}"]
+        outs.append(x)
+        shapes.append("unclosed-loopvar")
+    if ins and rng.random() < 0.6:
+        i = rng.choice(ins)
+        cen, pr, co = nm("cen"), nm("prod"), nm("cons")
+        x, x2, y, y2, z, z2 = nm("ex"), nm("ex"), nm("ey"), nm("ey"), nm("ez"), nm("ez")
+        extra += [f"area {cen} entity", f"area {pr} entity", f"bin {x} add {i} {i}", f"bin {x2} xor {x} {i}", "endarea",
+                  f"area {co} entity", f"bin {y} add {x} {i}", f"bin {y2} and {x2} {y}", "endarea", "endarea",
+                  f"bin {z} sub {x} {i}", f"bin {z2} or {z} {x2}"]
+        outs += [y2, z2]
+        shapes.append("three-entity")
+        if rng.random() < 0.7:
+            extra += [f"pathattr {i} {z2}", f"pathattr {x} {y}"]
+            shapes.append("pathattr")
+    elif ins and rng.random() < 0.5:
+        i = rng.choice(ins)
+        a = nm("pa")
+        extra += [f"bin {a} add {i} {i}", f"pathattr {i} {a}"]
+        outs.append(a)
+        shapes.append("pathattr")
+    # the extra statements go in front of the original `out` statements: nodes of the design follow them in m_nodes
+    cut = next((k for k, l in enumerate(body) if l.split()[0] == "out"), len(body))
+    cut = rng.randint(min(2, cut), cut)
+    # never inside an open if / area
+    depth, safe = 0, []
+    for k, l in enumerate(body[:cut + 1]):
+        if depth == 0:
+            safe.append(k)
+        t = l.split()[0]
+        if t in ("if", "area"):
+            depth += 1
+        elif t in ("endif", "endarea"):
+            depth -= 1
+    cut = max([k for k in safe if k <= cut] or [len(body)])
+    new = body[:cut] + extra + body[cut:] + [f"out oc{k} {v}" for k, v in enumerate(outs)]
+    return [head] + new + tail, used + shapes
+
+
+# --------------------------------------------------------------------------------------------------
 # T1
 # --------------------------------------------------------------------------------------------------
 def reorder_events(before, after):
@@ -304,7 +469,7 @@ def run_t1(harness, driver, mode_args, work, tag, seed):
 # --------------------------------------------------------------------------------------------------
 # T2
 # --------------------------------------------------------------------------------------------------
-def run_t2(harness, driver, designs, work, seed, extra=1, nproc=None):
+def run_t2(harness, driver, designs, work, seed, extra=1, nproc=None, slacks="-"):
     """designs: list of (lines, templates). returns (results, stats, crashed)"""
     if work.exists():
         shutil.rmtree(work)
@@ -321,7 +486,8 @@ def run_t2(harness, driver, designs, work, seed, extra=1, nproc=None):
             return
         pf = work / f"designs{i}.txt"
         G.write_programs(pf, [d[0] for d in shards[i]])
-        rc, out = V.run([harness, "design", str(pf), str(work), "def,min", str(extra)], timeout=tmo(60, 900), env={"VERIF_SEED": str(seed)})
+        rc, out = V.run([harness, "design", str(pf), str(work), "def,min", str(extra), slacks], timeout=tmo(120, 1800),
+                        env={"VERIF_SEED": str(seed), "C09_CASE_TIMEOUT": "30"})
         if rc != 0:
             crashed.append(dict(shard=i, rc=rc, out=out[-800:], designs=[d[0][0].split()[1] for d in shards[i]]))
     with concurrent.futures.ThreadPoolExecutor(max_workers=nproc) as ex:
@@ -362,24 +528,83 @@ def run_t2(harness, driver, designs, work, seed, extra=1, nproc=None):
 
 
 def unfinished(work, design_ids):
-    """(design, variant, last completed boundary) of the dump files of these designs that never reached their last dump"""
+    """(design, case tag, last completed boundary) of the dump files of these designs that never reached their end
+    (the harness process itself died, not only the forked case)"""
     res = []
     for d in design_ids:
-        for v in ("def", "min"):
-            f = work / f"{d}.{v}.wf"
-            if not f.exists():
-                continue
+        for f in sorted(glob.glob(str(work / f"{d}.*.wf"))):
+            f = Path(f)
             last, done = None, False
             for line in open(f):
-                if line.startswith("dump "):
+                if line.startswith(("dump ", "pass ")):
                     last = line[5:].strip()
-                    done = "extra:optimizeSubnet-after-shuffle" in line
-                elif line.startswith("SKIP"):
+                elif line.startswith(("SKIP", "DONE", "CRASH")):
                     done = True
             if not done:
-                res.append((f.stat().st_mtime, d, v, last))
+                res.append((f.stat().st_mtime, d, f.name[len(d) + 1:-3], last))
     res.sort()
     return [(d, v, last) for _, d, v, last in res]
+
+
+def case_crashes(files):
+    """CRASH lines written by the harness for forked cases that died -> list of dict(tag, signal, crash_in, last)"""
+    seqs, crashes = {}, []
+    per_file = {}
+    for f in files:
+        names, cr = [], []
+        tag = None
+        for line in open(f, errors="replace"):
+            if line.startswith(("dump ", "pass ")):
+                t = line.split()
+                tag = t[1]
+                if not t[3].startswith("enter:"):
+                    names.append(re.sub(r"^extra:", "", t[3]))
+            elif line.startswith("CRASH "):
+                t = line.split()
+                cr.append((t[1], t[2], next((x[3:] for x in t[3:] if x.startswith("in=")), None), list(names)))
+        per_file[f] = (tag, names)
+        if not cr and names:
+            v = "min" if ".min" in os.path.basename(f) else "def"
+            k = next((i for i, x in enumerate(names) if x == "construct:done"), None)
+            if k is not None and len(names) - k > len(seqs.get(v, [])):
+                seqs[v] = names[k:]
+        for c in cr:
+            crashes.append((f, c))
+    out = []
+    for f, (tag, sig, where, names) in crashes:
+        if where is None:
+            v = "min" if ".min" in os.path.basename(f) else "def"
+            k = next((i for i, x in enumerate(names) if x == "construct:done"), None)
+            ref = seqs.get(v, [])
+            if k is None:
+                where = "construction"
+            else:
+                done = names[k:]
+                where = ref[len(done)] if len(ref) > len(done) and ref[:len(done)] == done else "after:" + (done[-1] if done else "?")
+        where = re.sub(r"^(Def|Min)\.\w+:", "", where)
+        out.append(dict(tag=tag, file=f, signal=sig, crash_in=where, last_completed=names[-1] if names else None))
+    return out
+
+
+def realloc_hist(files):
+    """per pass: how often the node vector was reallocated inside it in the tight-capacity cases (from the `pass` markers)"""
+    h = {}
+    for f in files:
+        m = re.search(r"\.s(\d+)\.wf$", f)
+        if not m:
+            continue
+        slack = int(m.group(1))
+        prev = None
+        for line in open(f, errors="replace"):
+            if not line.startswith("pass ") or "enter:" in line:
+                continue
+            t = line.split()
+            nodes, cap = int(t[4][6:]), int(t[5][4:])
+            if prev is not None and cap != prev + slack and cap > 0:
+                name = re.sub(r"^(Def|Min)\.", "", t[3])
+                h[name] = h.get(name, 0) + 1
+            prev = nodes
+    return h
 
 
 def t2_activity(files):
@@ -550,6 +775,12 @@ def run_asan(exe, work, seed, designs, nseq, nops):
 
 
 # --------------------------------------------------------------------------------------------------
+def split_tag(tag):
+    """'g5.def.s1 12 name' / 'g5.min' -> (design, variant, slack or None)"""
+    t = tag.split()[0].split(".")
+    return t[0], (t[1] if len(t) > 1 else "?"), (t[2] if len(t) > 2 else None)
+
+
 def load_corpus():
     progs, opsfiles = [], []
     for f in sorted(glob.glob(str(V.VERIF / "corpus" / CID / "*.prog"))):
@@ -624,33 +855,65 @@ def main():
         if st["model_inv_false"]:
             broken.append("T1: inv_check false on a model state (contradicts ops_preserve_Inv: extraction/driver problem)")
 
+    # ---------------- lint ----------------
+    lint_hits = lint_node_loops(str(V.REPO))
+    for h in lint_hits:
+        broken.append(f"lint: {h['file']}:{h['line']} {h['function']}: `{h['loop']}` but the body calls `{h['trigger']}` (line {h['trigger_line']})")
+        found.append(dict(property=CID, key=h["key"], function=(h["function"] or "").split("::")[-1],
+                          what="LINT (static audit, heuristic): a loop iterates a node vector by range-for / iterator while its body grows or "
+                               "shrinks that vector; the iteration continues over the freed buffer when the vector reallocates (heap use-after-free)",
+                          **{k: h[k] for k in ("file", "line", "loop", "trigger", "trigger_line", "container")},
+                          expected="loops that create nodes index the vector: for (auto idx : utils::Range(m_nodes.size())) { auto node = m_nodes[idx].get(); ..."))
+
     # ---------------- T2 ----------------
     designs = list(corpus_progs)
+    nshape = 0
     if replay and replay.get("program"):
         designs = [(replay["program"], ["replay"])]
     elif replay:
         designs = []
     else:
-        ndes = 60 if quick else 400
+        ndes, nshape = (60, 30) if quick else (400, 200)
         for i in range(ndes):
             designs.append(G.gen_design(seed * 100003 + i, f"g{i}"))
+        for i in range(nshape):
+            designs.append(gen_creating(seed * 100003 + 50000 + i, f"c{i}"))
+    slacks = "-,0,1,2,3" if quick else "-,0,1,2,3,5,8"
     fails, t2, t2crashed, files = ([], dict(dumps=0, ok=0, fail=0, skipped=0, kinds={}, errors=[]), [], [])
     prog = {d[0][0].split()[1]: d for d in designs}
     if designs:
-        fails, t2, t2crashed, files = run_t2(harness, driver, designs, WORK / "t2", seed, extra=1)
+        fails, t2, t2crashed, files = run_t2(harness, driver, designs, WORK / "t2", seed, extra=1, slacks=slacks)
     for c in t2crashed:
         how = "did not return within the time limit (endless loop?)" if c["rc"] == 124 else f"crashed (exit {c['rc']})"
         unf = unfinished(WORK / "t2", c["designs"])
-        broken.append(f"T2: construction / post-processing of a real design {how}; unfinished: {unf[:3]}")
+        broken.append(f"T2: the harness itself {how}; unfinished: {unf[:3]}")
         for d, v, last in unf[:1]:
-            found.append(dict(property=CID, what="construction / post-processing of a real design " + how, design=d, variant=v,
+            found.append(dict(property=CID, key=f"harness-died {d}.{v}", what="construction / post-processing of a real design " + how, design=d, case=v,
                               last_completed_boundary=last, program=prog.get(d, ([], []))[0], observed=c["out"][-300:],
                               expected="every pass returns and leaves a well-formed graph"))
+    crashes = case_crashes(files) if files else []
+    by_pass = {}
+    for c in crashes:
+        by_pass.setdefault(c["crash_in"], []).append(c)
+    for where, cs in sorted(by_pass.items()):
+        c = min(cs, key=lambda x: len(prog.get(split_tag(x["tag"])[0], ([], []))[0]) or 10 ** 9)
+        d, v, sl = split_tag(c["tag"])
+        sig = c["signal"]
+        how = {"signal=11": "faulted (SIGSEGV) on poisoned freed memory: heap use-after-free", "signal=6": "aborted (write into a freed block, or an assertion)",
+               "signal=14": "did not return within the time limit"}.get(sig, "died (" + sig + ")")
+        broken.append(f"T2: {where} {how} in {len(cs)} case(s), e.g. {c['tag']}")
+        found.append(dict(property=CID, key=f"crash-in={where}", what=f"a pass / preparation step of the real library {how}", crash_in=where,
+                          cases=sorted({x["tag"] for x in cs})[:12], design=d, variant=v,
+                          node_vector_slack=("untouched" if sl is None else f"capacity == size + {sl[1:]} before every pass (Circuit::getNodes().shrink_to_fit()/reserve())"),
+                          last_completed_boundary=c["last_completed"], program=prog.get(d, ([], []))[0],
+                          expected="every pass returns, reads no freed memory and leaves a well-formed graph",
+                          how_to_rerun="build/harness/C09_wf design <programs> <outdir> def,min 1 " + slacks))
     if t2["errors"]:
         broken.append("T2: driver errors: " + "; ".join(t2["errors"][:3]))
     for l in fails[:50]:
         broken.append("T2: extracted wf_check rejects a real graph: " + l)
     changed, t2_distinct, t2_total = t2_activity(files) if files else ({}, 0, 0)
+    reallocs = realloc_hist(files) if files else {}
     can = canary(driver, files, WORK) if (driver and files) else None
     if can is not None and can["missed"]:
         V.infra_error("C09 canary: the checker accepted a damaged dump: " + "; ".join(can["missed"]))
@@ -698,9 +961,9 @@ def main():
                 searched += 1
                 bad = py_wf(lines, need_group=True)
                 if bad:
-                    did = tag.split()[0].rsplit(".", 1)
+                    did = split_tag(tag)
                     found.insert(0, dict(property=CID, what="real graph violates the invariant at a construction step / pass boundary",
-                                      design=did[0], variant=did[1] if len(did) > 1 else "?", boundary=tag,
+                                      design=did[0], variant=did[1], boundary=tag,
                                       program=prog.get(did[0], ([], []))[0], violations=bad[:10], dump=lines[:400],
                                       expected="both directions of every relation agree, every node in one group"))
                     break
@@ -734,7 +997,7 @@ def main():
                     searched += 1
                     bad = py_wf(lines, need_group=True)
                     if bad:
-                        did = tag.split()[0].rsplit(".", 1)
+                        did = split_tag(tag)
                         found.append(dict(property=CID, what="real graph violates the invariant at a construction step / pass boundary",
                                           design=did[0], variant=did[1], boundary=tag, program=pd.get(did[0], ([], []))[0],
                                           violations=bad[:10], dump=lines[:400]))
@@ -742,18 +1005,25 @@ def main():
                 if found:
                     break
 
-    for fnd in found[:5]:
+    seen_keys, reported = set(), 0
+    for fnd in found:
+        k = fnd.get("key") or json.dumps(fnd, default=str)[:200]
+        if k in seen_keys:
+            continue
+        seen_keys.add(k)
         text = json.dumps(fnd, default=str)
-        if any(k and k in text for k in known):
-            rep.known(fnd.get("what", "") + " " + str(fnd.get("violations", ""))[:200])
-        else:
+        kn = [x for x in known if x and (x in text or (fnd.get("key") and fnd["key"] in x) or (fnd.get("function") and fnd["function"] in x))]
+        if kn:
+            rep.known((fnd.get("key") or fnd.get("what", "")) + " -- " + str(fnd.get("violations", fnd.get("cases", fnd.get("file", ""))))[:200])
+        elif reported < 8:
+            reported += 1
             rep.violation(fnd)
     if broken and not found:
         rep.violation(dict(property=CID, what="no concrete failing input found by the independent oracle", broken=broken[:20],
                            searched_states=searched, t1_mismatch=(rep.cov.get("t1_mismatches") or [None])[0],
                            t2_rejected=fails[:5],
                            rejected_dump=(find_dump(files, fails[0].split(" nodes=")[0][3:]) or [])[:400] if fails else None,
-                           rejected_program=(prog.get(fails[0].split()[1].rsplit(".", 1)[0], ([], []))[0] if fails else None)),
+                           rejected_program=(prog.get(split_tag(fails[0].split()[1])[0], ([], []))[0] if fails else None)),
                       nofail=True)
 
     # ---------------- evidence ----------------
@@ -770,7 +1040,15 @@ def main():
                          refused_by_the_model_and_thrown_by_the_code=t1["refused"], calls_by_kind=t1["hist"])
     rep.cov["t2"] = dict(designs=len(designs), dumps_checked=t2["dumps"], accepted=t2["ok"], rejected=t2["fail"], skipped_variants=t2["skipped"],
                          dumps_that_differ_from_predecessor=t2_distinct, node_kinds_seen=t2["kinds"],
-                         boundaries_that_changed_the_graph=dict(sorted(changed.items(), key=lambda kv: -kv[1])[:60]), canary=can)
+                         boundaries_that_changed_the_graph=dict(sorted(changed.items(), key=lambda kv: -kv[1])[:60]), canary=can,
+                         node_creating_shape_designs=nshape, node_vector_slacks=slacks, forked_cases=len(files),
+                         cases_that_died=len(crashes), died_in={k: len(v) for k, v in by_pass.items()},
+                         passes_in_which_the_node_vector_was_reallocated_under_tight_capacity=dict(sorted(reallocs.items(), key=lambda kv: -kv[1])),
+                         poison="operator new/delete replaced in the harness: freed blocks filled with 0xDD and quarantined; stale read faults, stale write detected")
+    rep.cov["lint_static_audit"] = dict(rule="range-for / iterator loop over Circuit::m_nodes / circuit.getNodes() (or a group's getNodes()) whose body calls createNode / "
+                                             "createUnconnectedClone / copySubnet / ConstructionHelper / getCreate* / vector mutators (or moveToGroup)",
+                                        hits=[{k: h[k] for k in ("file", "line", "function", "loop", "trigger", "trigger_line")} for h in lint_hits],
+                                        label="heuristic lint, not a proof; a hit is treated as a broken obligation")
     if asan is not None:
         rep.cov["sanitizer_supporting_evidence"] = asan
     samples = []
@@ -792,6 +1070,8 @@ def main():
         "the per-kind type requirement table (WfDefs.kind_req) is our reading of the connectInput functions of the core nodes; kinds not in the table have no requirement",
         "the dumper prints `X` for any pointer not found among the live objects of the circuit without dereferencing it; Clock::getClockedNodes itself dereferences its entries",
         "T2: Circuit::m_nextNodeId / m_nextGroupId / m_nextClockId are not observable; the imported graph takes max id + 1, so for real dumps clause (v) checks uniqueness of ids only",
+        "use-after-free is observed dynamically only: poisoned freed memory (quick + thorough) and ASan (thorough) on the sampled designs x slacks; a stale read of a block "
+        "that left the 96 MB quarantine and was reused is not detected by the poison",
         "use-after-free / out-of-bounds accesses are NOT covered by the theorems; in-bounds and liveness are preconditions (op_struct_pre) of the model operations",
         "NodeIO::connectInput / rewireInput / attachClock do not bounds-check their port index (only getDriver does); calls with an out-of-range index are outside the modelled contract",
     ]
